@@ -26,6 +26,7 @@ import (
 	"strconv"
 	"strings"
 
+	"golang.org/x/tools/go/ast/astutil"
 	"golang.org/x/tools/go/packages"
 )
 
@@ -78,16 +79,12 @@ func main() {
 			// refuse what the scheduler cannot model
 			ast.Inspect(f, func(nd ast.Node) bool {
 				switch x := nd.(type) {
-				case *ast.SendStmt, *ast.SelectStmt:
-					fatal("%s: channel operation / select at %s is not supported by the scheduler", p, pkg.Fset.Position(nd.Pos()))
-				case *ast.UnaryExpr:
-					if x.Op == token.ARROW {
-						fatal("%s: channel receive at %s is not supported by the scheduler", p, pkg.Fset.Position(nd.Pos()))
-					}
+				case *ast.SelectStmt:
+					fatal("%s: select at %s is not supported by the scheduler", p, pkg.Fset.Position(nd.Pos()))
 				case *ast.RangeStmt:
 					if tv, ok := pkg.TypesInfo.Types[x.X]; ok {
-						if _, isChan := tv.Type.Underlying().(*types.Chan); isChan {
-							fatal("%s: range over channel at %s is not supported by the scheduler", p, pkg.Fset.Position(nd.Pos()))
+						if _, isChan := tv.Type.Underlying().(*types.Chan); isChan && x.Tok != token.DEFINE && x.Key != nil {
+							fatal("%s: range over channel with '=' at %s is not supported by the scheduler", p, pkg.Fset.Position(nd.Pos()))
 						}
 					}
 				case *ast.SelectorExpr:
@@ -104,6 +101,97 @@ func main() {
 				return true
 			})
 			n := 0
+			// channel operations -> shim calls
+			shimCall := func(name string, args ...ast.Expr) *ast.CallExpr {
+				return &ast.CallExpr{Fun: &ast.SelectorExpr{X: ast.NewIdent("sync"), Sel: ast.NewIdent(name)}, Args: args}
+			}
+			isChan := func(e ast.Expr) bool {
+				tv, ok := pkg.TypesInfo.Types[e]
+				if !ok {
+					return false
+				}
+				_, c := tv.Type.Underlying().(*types.Chan)
+				return c
+			}
+			recv2 := map[ast.Expr]bool{}
+			ast.Inspect(f, func(nd ast.Node) bool {
+				switch x := nd.(type) {
+				case *ast.AssignStmt:
+					if len(x.Lhs) == 2 && len(x.Rhs) == 1 {
+						if u, ok := x.Rhs[0].(*ast.UnaryExpr); ok && u.Op == token.ARROW {
+							recv2[u] = true
+						}
+					}
+				case *ast.ValueSpec:
+					if len(x.Names) == 2 && len(x.Values) == 1 {
+						if u, ok := x.Values[0].(*ast.UnaryExpr); ok && u.Op == token.ARROW {
+							recv2[u] = true
+						}
+					}
+				}
+				return true
+			})
+			astutil.Apply(f, nil, func(cur *astutil.Cursor) bool {
+				switch x := cur.Node().(type) {
+				case *ast.UnaryExpr:
+					if x.Op == token.ARROW {
+						n++
+						if recv2[x] {
+							cur.Replace(shimCall("ChanRecv2", x.X))
+						} else {
+							cur.Replace(shimCall("ChanRecv", x.X))
+						}
+						changed, needShim = true, true
+					}
+				case *ast.SendStmt:
+					n++
+					cid := ast.NewIdent(fmt.Sprintf("__vc%d", n))
+					lhs, rhs := []ast.Expr{cid}, []ast.Expr{x.Chan}
+					var val ast.Expr = x.Value
+					if tv, ok := pkg.TypesInfo.Types[x.Value]; !ok || tv.Value == nil {
+						// not a constant: evaluate the value now, as the send statement would
+						vid := ast.NewIdent(fmt.Sprintf("__vv%d", n))
+						lhs, rhs = append(lhs, vid), append(rhs, x.Value)
+						val = vid
+					}
+					op := &ast.FuncLit{Type: &ast.FuncType{Params: &ast.FieldList{}}, Body: &ast.BlockStmt{List: []ast.Stmt{&ast.SendStmt{Chan: cid, Value: val}}}}
+					cur.Replace(&ast.BlockStmt{List: []ast.Stmt{
+						&ast.AssignStmt{Lhs: lhs, Tok: token.DEFINE, Rhs: rhs},
+						&ast.ExprStmt{X: shimCall("ChanSendFn", cid, op)},
+					}})
+					changed, needShim = true, true
+				case *ast.CallExpr:
+					if id, ok := x.Fun.(*ast.Ident); ok && id.Name == "close" && len(x.Args) == 1 {
+						if _, isBuiltin := pkg.TypesInfo.Uses[id].(*types.Builtin); isBuiltin {
+							n++
+							cur.Replace(shimCall("ChanClose", x.Args[0]))
+							changed, needShim = true, true
+						}
+					}
+				case *ast.RangeStmt:
+					if isChan(x.X) {
+						if _, labelled := cur.Parent().(*ast.LabeledStmt); labelled {
+							fatal("%s: labelled range over a channel at %s is not supported", p, pkg.Fset.Position(x.Pos()))
+						}
+						n++
+						cid := ast.NewIdent(fmt.Sprintf("__vc%d", n))
+						okid := ast.NewIdent(fmt.Sprintf("__vok%d", n))
+						var key ast.Expr = ast.NewIdent("_")
+						if x.Key != nil {
+							key = x.Key
+						}
+						recv := &ast.AssignStmt{Lhs: []ast.Expr{key, okid}, Tok: token.DEFINE, Rhs: []ast.Expr{shimCall("ChanRecv2", cid)}}
+						brk := &ast.IfStmt{Cond: &ast.UnaryExpr{Op: token.NOT, X: okid}, Body: &ast.BlockStmt{List: []ast.Stmt{&ast.BranchStmt{Tok: token.BREAK}}}}
+						body := &ast.BlockStmt{List: append([]ast.Stmt{recv, brk}, x.Body.List...)}
+						cur.Replace(&ast.BlockStmt{List: []ast.Stmt{
+							&ast.AssignStmt{Lhs: []ast.Expr{cid}, Tok: token.DEFINE, Rhs: []ast.Expr{x.X}},
+							&ast.ForStmt{Body: body},
+						}})
+						changed, needShim = true, true
+					}
+				}
+				return true
+			})
 			var rewrite func(list []ast.Stmt)
 			rewrite = func(list []ast.Stmt) {
 				for i, st := range list {
